@@ -1003,4 +1003,144 @@ theorem scan_renderFrom (s : Nat → List Char) (tks : List Tk) (hwf : ∀ t ∈
     rw [scan_wsPiece _ _ hws (renderFrom_head _ _ hwf'), ih (shift s) hwf' hfit']
     simp [piecesFrom]
 
+/-! ### from the scan to `lex`: tokens with their positions -/
+
+/-- the tokens of a rendering with their positions, computed without the lexer: the token starts where the
+    text before it ends (`advance`), and ends after its own text -/
+def placeFrom (line col : Nat) : (Nat → List Char) → List Tk → List Token
+  | _, [] => []
+  | s, t :: ts =>
+    { tk := t, line := line, col := col, len := t.text.toList.length,
+      endLine := (advance line col t.text.toList).1, endCol := (advance line col t.text.toList).2 } ::
+      placeFrom (advance line col (t.text.toList ++ s 0)).1 (advance line col (t.text.toList ++ s 0)).2 (shift s) ts
+
+theorem tokensOf_wsPiece (line col : Nat) (run : List Char) (ps : List Piece) :
+    tokensOf line col (wsPiece run ++ ps) = tokensOf (advance line col run).1 (advance line col run).2 ps := by
+  cases run with
+  | nil => rfl
+  | cons c r => rfl
+
+theorem tokensOf_piecesFrom (line col : Nat) (s : Nat → List Char) (tks : List Tk) :
+    tokensOf line col (piecesFrom s tks) = placeFrom line col s tks := by
+  induction tks generalizing line col s with
+  | nil => rfl
+  | cons t ts ih =>
+    simp only [piecesFrom, tokensOf, placeFrom, tokensOf_wsPiece, ih, advance_append]
+
+theorem placeFrom_kinds (line col : Nat) (s : Nat → List Char) (tks : List Tk) :
+    (placeFrom line col s tks).map (·.tk) = tks := by
+  induction tks generalizing line col s with
+  | nil => rfl
+  | cons t ts ih => simp only [placeFrom, List.map_cons, ih]
+
+theorem placeFrom_length (line col : Nat) (s : Nat → List Char) (tks : List Tk) :
+    (placeFrom line col s tks).length = tks.length := by
+  rw [← List.length_map (f := (·.tk)), placeFrom_kinds]
+
+theorem renderTks_toList (sep : Nat → List Char) (tks : List Tk) :
+    (renderTks sep tks).toList = sep 0 ++ renderFrom (shift sep) tks := by
+  simp [renderTks]
+
+/-- **The lexer on a rendering, exactly**: tokens *and* positions. -/
+theorem lex_render_exact (sep : Nat → List Char) (tks : List Tk) (hwf : ∀ t ∈ tks, t.WF)
+    (hl : Layout sep tks) :
+    lex (renderTks sep tks) =
+      some (placeFrom (advance 1 0 (sep 0)).1 (advance 1 0 (sep 0)).2 (shift sep) tks) := by
+  rw [lex_eq_scan, renderTks_toList,
+    scan_wsPiece _ _ (List.all_eq_true.mp hl.1) (renderFrom_head _ _ hwf),
+    scan_renderFrom _ _ hwf hl.2]
+  simp only [Option.map_some, tokensOf_wsPiece, tokensOf_piecesFrom]
+
+/-- **`lex_render` — layout independence of the lexer.** For every sequence of well-formed token kinds and
+    every admissible layout (`Layout`: arbitrary white-space runs between the tokens — blanks, tabs, `\r`, `\n`
+    in any number and order —, empty runs where `needsSpace` allows it, a line end after a comment), the lexer
+    returns exactly the written tokens. -/
+theorem lex_render (sep : Nat → List Char) (tks : List Tk) (hwf : ∀ t ∈ tks, t.WF) (hl : Layout sep tks) :
+    (lex (renderTks sep tks)).map (·.map (·.tk)) = some tks := by
+  rw [lex_render_exact sep tks hwf hl, Option.map_some, placeFrom_kinds]
+
+/-- the strict version: a non-empty white-space run after every token -/
+theorem lex_render_spaced (sep : Nat → List Char) (tks : List Tk) (hwf : ∀ t ∈ tks, t.WF)
+    (hl : Spaced sep tks) : (lex (renderTks sep tks)).map (·.map (·.tk)) = some tks :=
+  lex_render sep tks hwf hl.layout
+
+/-- two admissible layouts of the same tokens lex to the same token kinds -/
+theorem lex_layout_independent (sep sep' : Nat → List Char) (tks : List Tk) (hwf : ∀ t ∈ tks, t.WF)
+    (hl : Layout sep tks) (hl' : Layout sep' tks) :
+    (lex (renderTks sep tks)).map (·.map (·.tk)) = (lex (renderTks sep' tks)).map (·.map (·.tk)) := by
+  rw [lex_render sep tks hwf hl, lex_render sep' tks hwf hl']
+
+/-- rendering is injective on well-formed token sequences, whatever the two layouts -/
+theorem renderTks_injective (sep sep' : Nat → List Char) (tks tks' : List Tk)
+    (hwf : ∀ t ∈ tks, t.WF) (hwf' : ∀ t ∈ tks', t.WF) (hl : Layout sep tks) (hl' : Layout sep' tks')
+    (h : renderTks sep tks = renderTks sep' tks') : tks = tks' := by
+  have h1 := lex_render sep tks hwf hl
+  have h2 := lex_render sep' tks' hwf' hl'
+  rw [h, h2] at h1
+  exact (Option.some.inj h1).symm
+
+/-! ## 4. positions -/
+
+theorem renderFrom_take_succ (s : Nat → List Char) (t : Tk) (ts : List Tk) (k : Nat) :
+    renderFrom s ((t :: ts).take (k+1)) = t.text.toList ++ (s 0 ++ renderFrom (shift s) (ts.take k)) := by
+  simp [renderFrom]
+
+/-- the `k`-th placed token starts where the rendering of the first `k` tokens (with the run after the last of
+    them) ends -/
+theorem placeFrom_getElem (line col : Nat) (s : Nat → List Char) (tks : List Tk) (k : Nat) (hk : k < tks.length) :
+    ∃ h : k < (placeFrom line col s tks).length,
+      (placeFrom line col s tks)[k] =
+        { tk := tks[k], line := (advance line col (renderFrom s (tks.take k))).1,
+          col := (advance line col (renderFrom s (tks.take k))).2,
+          len := tks[k].text.toList.length,
+          endLine := (advance line col (renderFrom s (tks.take k) ++ tks[k].text.toList)).1,
+          endCol := (advance line col (renderFrom s (tks.take k) ++ tks[k].text.toList)).2 } := by
+  refine ⟨by rw [placeFrom_length]; exact hk, ?_⟩
+  induction tks generalizing line col s k with
+  | nil => simp at hk
+  | cons t ts ih =>
+    cases k with
+    | zero => simp [placeFrom, renderFrom, advance]
+    | succ j =>
+      have hj : j < ts.length := by simpa using hk
+      simp only [placeFrom, List.getElem_cons_succ, renderFrom_take_succ]
+      rw [ih _ _ (shift s) j hj]
+      simp only [← List.append_assoc, advance_append]
+
+/-- **Positions on a rendering.** The `k`-th token returned by the lexer on `renderTks sep tks` is `tks[k]`;
+    its `(line, col)` is `advance 1 0` over the rendered prefix `renderTks sep (tks.take k)` (the first `k`
+    tokens with their separators), its end position is `advance 1 0` over that prefix followed by its own
+    text, and `len` is the length of its text. So the position is determined by the rendered prefix alone. -/
+theorem lex_render_position (sep : Nat → List Char) (tks : List Tk) (hwf : ∀ t ∈ tks, t.WF)
+    (hl : Layout sep tks) :
+    ∃ toks, lex (renderTks sep tks) = some toks ∧ toks.length = tks.length ∧
+      ∀ k (hk : k < tks.length) (hk' : k < toks.length),
+        toks[k].tk = tks[k] ∧
+        (toks[k].line, toks[k].col) = advance 1 0 (renderTks sep (tks.take k)).toList ∧
+        (toks[k].endLine, toks[k].endCol) =
+          advance 1 0 ((renderTks sep (tks.take k)).toList ++ tks[k].text.toList) ∧
+        toks[k].len = tks[k].text.toList.length := by
+  refine ⟨_, lex_render_exact sep tks hwf hl, placeFrom_length _ _ _ _, ?_⟩
+  intro k hk hk'
+  obtain ⟨_, e⟩ := placeFrom_getElem (advance 1 0 (sep 0)).1 (advance 1 0 (sep 0)).2 (shift sep) tks k hk
+  rw [e]
+  simp only [renderTks_toList, List.append_assoc, advance_append, and_self]
+
+/-- the start position of the `k`-th token does not depend on anything written after it: two token
+    sequences/layouts that agree up to the `k`-th token give it the same position -/
+theorem lex_render_position_prefix (sep sep' : Nat → List Char) (tks tks' : List Tk)
+    (hwf : ∀ t ∈ tks, t.WF) (hwf' : ∀ t ∈ tks', t.WF) (hl : Layout sep tks) (hl' : Layout sep' tks')
+    (k : Nat) (hk : k < tks.length) (hk' : k < tks'.length)
+    (hpre : renderTks sep (tks.take k) = renderTks sep' (tks'.take k)) :
+    ∃ toks toks', lex (renderTks sep tks) = some toks ∧ lex (renderTks sep' tks') = some toks' ∧
+      ∃ (h : k < toks.length) (h' : k < toks'.length),
+        toks[k].line = toks'[k].line ∧ toks[k].col = toks'[k].col := by
+  obtain ⟨toks, h1, h2, h3⟩ := lex_render_position sep tks hwf hl
+  obtain ⟨toks', h1', h2', h3'⟩ := lex_render_position sep' tks' hwf' hl'
+  refine ⟨toks, toks', h1, h1', by omega, by omega, ?_⟩
+  have a := (h3 k hk (by omega)).2.1
+  have b := (h3' k hk' (by omega)).2.1
+  rw [hpre, ← b] at a
+  exact ⟨congrArg Prod.fst a, congrArg Prod.snd a⟩
+
 end Pydjinni.Front
